@@ -320,6 +320,19 @@ def run(ctx):
     # finding above); the next execution must still record its own output, not the abandoned one's
     from .c15 import r2_per_execution
     r2_per_execution(ctx, mod, sym, rule='R6')
+    # R7: the one timeout report can be built - with full_traceback the frames shown for a timeout include pedal's own
+    # multi-line timeout(...) call; rendering them must not raise (shared with C04.R4)
+    ctx.rule('R7', "ExpandedTraceback.format_line executed abstractly for the frames a timeout shows (pedal's own "
+                   "multi-line call under full_traceback included): building the timeout feedback never raises")
+    from .c04 import format_line_rule
+    format_line_rule(ctx, sym, 'R7')
+    # R8: an abandoned student thread may still be running after the grader stopped the patches: whatever sandbox code
+    # it executes then must not write process-wide state directly (shared with C05.R4)
+    ctx.rule('R8', "who-writes sweep over pedal/sandbox: sys.modules[...], sys.stdout, time.sleep, builtins.* are "
+                   "written through tracked patches only, so code running in an abandoned thread after the patches "
+                   "were stopped cannot alter what later executions see")
+    from .c05 import global_write_sweep
+    global_write_sweep(ctx, 'R8')
     ctx.assume("actual wall-clock bounds and the behaviour of PyThreadState_SetAsyncExc for code that blocks in C or "
                "swallows exceptions are not decided; recognised synchronisation idioms: a with-lock around both "
                "accesses, an abandonment flag/generation token tested first in the student role")
